@@ -52,6 +52,9 @@ M = [
     ('children', 'WBS.remove', 'pjplan/wbs.py', "        return self.__remove(task, self.__root)", "        self.__remove(task, self.__root)\n        return True", 'member'),
     ('children', 'Task.__lshift__', 'pjplan/task.py', "        \"\"\"Synonym for predecessors.append(other) and predecessors += other\"\"\"\n        self.predecessors += other", "        \"\"\"Synonym for predecessors.append(other) and predecessors += other\"\"\"\n        self.successors += other", 'links-are'),
     ('children', 'Task.__floordiv__', 'pjplan/task.py', "        self.children += other\n        return other", "        self.children = other\n        return other", 'followed-by'),
+    ('children', 'Task.__init__', 'pjplan/task.py', "        if parent is not None:\n            self.parent = parent\n        if children is not None:", "        if parent is not None:\n            self.__parent = parent\n        if children is not None:", 'F2'),
+    ('children', 'Task.__init__', 'pjplan/task.py', "        self.__id = id\n        self.name = name", "        self.name = name", 'given-id'),
+    ('children', 'Task.__init__', 'pjplan/task.py', "        self.__children = []\n        self.__predecessors = []\n        self.__successors = []", "        self.__children = []\n        self.__predecessors = self.__successors = []", 'O1'),
     ('closure', 'get_children', 'pjplan/task.py', "                yield ch\n                yield from get_children(ch)", "                yield from get_children(ch)\n                yield ch", 'depth-first'),
     ('closure', 'get_parent', 'pjplan/task.py', "                yield t\n                yield from get_parent(t.parent)", "                yield t", 'ancestors'),
     ('closure', 'get_predecessor', 'pjplan/task.py', "            for pr in t.predecessors:\n                yield pr\n                yield from get_predecessor(pr)", "            for pr in t.predecessors:\n                yield from get_predecessor(pr)", 'every-transitive'),
